@@ -215,7 +215,7 @@ def _integral(ring):
 
 
 # /repo commits that repaired the defect (frag/C04.fix-<n>.diff); None = repair proposed, not applied yet (finding stays `known`)
-FIX = {1: "964499d", 2: "6fd4ec8", 3: "0c8663a", 4: "6534350", 5: "e1cb767", 6: "3b7f5ec", 7: "d8dba27"}
+FIX = {1: "964499d", 2: "6fd4ec8", 3: "0c8663a", 4: "6534350", 5: "e1cb767", 6: "3b7f5ec", 7: "d8dba27", 8: None}
 
 
 def code_site(ring, src):
@@ -295,7 +295,7 @@ def defect_rules():
         ("int32_t-min-into-64-bit-unsigned-element", lambda r: r in ("mu64", "mu64w", "mru7", "mru67"), ("i32",), tmin,
          "generic init: -y overflows in int for INT32_MIN and the sign-extended value 2^64-2^31 is reduced instead of 2^31", None),
         ("type-min", lambda r: r in ("gfq32", "gfq64"), ("i32", "i64"), tmin,
-         "tr = -tr overflows; the table index _q - tr is far outside _pol2log (out-of-bounds read; crashes for int32_t)", None),
+         "tr = -tr overflows; the table index _q - tr is far outside _pol2log (out-of-bounds read; crashes for int32_t)", 8),
         ("negative-Integer", lambda r: r in ("bd", "bf", "bi32", "bi64"), ("I",), neg,
          "y % _p keeps the sign of y but only NORMALISE_HI is applied: results below _mhalfp are not canonical", 1),
         ("negative-Integer", lambda r: _integral(r) and (RINGS[r][1][0] == "u" or _sbits(r) == 8), ("I",), neg,
